@@ -9,9 +9,9 @@ from enc import call, tres
 from props import corpus, jsontools, progen
 
 CONSTS = ["None", "True", "False", "0", "1", "-1", "2**53-1", "2**53", "-2**53", "-(2**53)+1", "10**40", "-10**40",
-          "0.0", "-0.0", "1.5", "1e400", "-1e400", "float('nan')", "1e-320", "1j", "complex(-0.0, 0.0)", "complex(1e400, float('nan'))",
+          "0.0", "-0.0", "1.5", "1e400", "-1e400", "1e400 - 1e400", "1e-320", "1j", "-0j", "1e400j - 1e400j", "(1e400 - 1e400) * 1j", "1e400 + 1e400j",
           "'text'", "''", "'\\ud800'", "'a\\udfffb'", "'\\U0001F600'", "b''", "b'\\x00\\xff'", "...", "()", "(1, 2.0, 'x')",
-          "((), ((1,),), None)", "(float('nan'), -0.0)", "('\\udc00', b'y', ...)", "(10**30, True, 1.0, 1)"]
+          "((), ((1,),), None)", "(1e400 - 1e400, -0.0)", "(1e400j - 1e400j, (1e400 - 1e400,))", "('\\udc00', b'y', ...)", "(10**30, True, 1.0, 1)"]
 
 
 def corruptions(doc):
